@@ -661,7 +661,7 @@ pub fn run(ctx: &Ctx) -> ! {
         "mem_every_step",
         &format!("in-memory LinearStorageProvider: init perspective + 0..30 ops (fact insert/delete incl. live keys, add_command, write segment [+commit], open linear perspective at any stored command, fact perspective + write_facts + merge perspective, commit+re-verify); after EVERY op all exact/prefix queries of the case's key universe on the live perspective, after every segment write on segment.facts() and on get_fact_perspective/get_linear_perspective at every command of it, at the end on everything stored; {rule}"),
         || general(30),
-        ctx.pick(600, 15_000),
+        ctx.pick(1_200, 15_000),
         check_mem(2),
     );
     tm("mem_every_step");
@@ -669,7 +669,7 @@ pub fn run(ctx: &Ctx) -> ! {
         "mem_general",
         &format!("same with 0..70 ops; after a fact write only the written key and its prefixes are re-queried, the full universe at every command boundary / segment write / perspective open; {rule}"),
         || general(70),
-        ctx.pick(1_000, 25_000),
+        ctx.pick(2_000, 25_000),
         check_mem(1),
     );
     tm("mem_general");
@@ -677,7 +677,7 @@ pub fn run(ctx: &Ctx) -> ! {
         "mem_deep_chain",
         &format!("in-memory: 18..37 rounds of (1-3 writes biased to live keys, optional command boundary, write segment, sometimes branch/braid) => fact index chains past MAX_FACT_INDEX_DEPTH=16; {rule}"),
         || deep(38, 3),
-        ctx.pick(300, 7_500),
+        ctx.pick(600, 7_500),
         check_mem(1),
     );
     tm("mem_deep_chain");
@@ -685,7 +685,7 @@ pub fn run(ctx: &Ctx) -> ! {
         "file_general",
         &format!("same op language (0..40 ops) on LinearStorageProvider<FileManager> in a fresh temp dir (Reopen really drops the provider and reopens the graph file); full-universe checks on every written segment (fact index, mid-segment fact perspectives), every opened perspective, every commit and at the end; {rule}"),
         || general(40),
-        ctx.pick(150, 3_000),
+        ctx.pick(300, 3_000),
         check_file,
     );
     tm("file_general");
@@ -693,7 +693,7 @@ pub fn run(ctx: &Ctx) -> ! {
         "file_deep_chain",
         &format!("deep-chain generator (18..23 rounds, 2 key components) on the file backend; {rule}"),
         || deep(24, 2),
-        ctx.pick(50, 1_000),
+        ctx.pick(100, 1_000),
         check_file,
     );
     rep.finish()
